@@ -1595,7 +1595,9 @@ impl<'a, K: Hash + Eq, V, E: OnEvictCallback, S: BuildHasher> IntoIterator
 impl<K: Hash + Eq, V> FromIterator<(K, V)> for RawLRU<K, V> {
     fn from_iter<T: IntoIterator<Item = (K, V)>>(iter: T) -> Self {
         let iter = iter.into_iter();
-        let mut this = Self::new(iter.size_hint().0).unwrap();
+        // an empty (or lower-bound-0) iterator is a legitimate input: reserve at least one slot
+        // instead of unwrapping the InvalidSize(0) error
+        let mut this = Self::new(iter.size_hint().0.max(1)).unwrap();
         iter.for_each(|(k, v)| {
             this.put(k, v);
         });
